@@ -71,7 +71,8 @@ def gen(V):
             add('trim_to_length', line, run_py(f))
 
     # ---------------- calc_surface_energy / calc_cum_abs_surface_energy / get_time_shift_motions
-    recs = [[4], [1, -2], [3, 0, -4], [1, 2, -1, 3], [0, 0, 2, 2, -6, 1], [2, -2, 2, -2, 2, -2, 2], [1, 0, 0, 0, 0, 0, 0, -1, 3]]
+    recs = [[4], [1, -2], [3, 0, -4], [1, 2, -1, 3], [0, 0, 2, 2, -6, 1], [2, -2, 2, -2, 2, -2, 2], [1, 0, 0, 0, 0, 0, 0, -1, 3],
+            [rnd.randint(-4, 4) for _ in range(64)]]
     def tt_sets(dt):
         q = dt / 4
         return [('s', 0.0), ('s', 2 * q), ('s', 3 * q), ('a', [0.0]), ('a', [q]), ('a', [2 * q]), ('a', [4 * q]), ('a', [5 * q]),
